@@ -23,7 +23,7 @@ ASSUMPTIONS = [
     'for tied times the order of the pointwise values within the tie group is not specified (compared as multiset)']
 REQUIRED = ['tmode:identical', 'tmode:disjoint', 'tmode:nested', 'tmode:overlap', 'tmode:free', 'tmode:single',
             'tied', 'oos', 'decreasing', 'len1', 'em:gauss', 'em:mult', 'em:cm', 'em:lognorm', 'reduced_em',
-            'unmeasured_output_first', 'negative_outputs:cm', 'long_series']
+            'unmeasured_output_first', 'negative_outputs:cm', 'long_series', 'nothing_measured']
 
 
 @st.composite
@@ -90,8 +90,9 @@ def classify(spec):
         labs.append('len1')
     if any(len(t) == 0 for t in ll['times']):
         labs.append('unmeasured_output')
-        first = min(o for o in range(ll['n_out']) if ll['times'][o])
-        if first > 0:
+        if not any(ll['times']):
+            labs.append('nothing_measured')
+        elif min(o for o in range(ll['n_out']) if ll['times'][o]) > 0:
             labs.append('unmeasured_output_first')
     if spec.get('long'):
         labs.append('long_series')
